@@ -206,6 +206,13 @@ def ledger_survives_prepare_rule(ctx: Ctx, rid: str):
     from .common import heap_writes
     repo = ctx.repo
     rprep = repo.func("ResourceScenario.prepareScheduling")
+    if scenarios_processed_once(ctx):
+        # the preparation of a scenario runs once, before anything is booked in it: emptying the (empty) ledgers there is harmless
+        for fld in ("slotSecondsUsed", "slotTaskUsage"):
+            ctx.ob(rid, f"{rprep.qual}: {fld} at preparation time", rprep, True,
+                   "each scenario is prepared exactly once (R12.8), before its first booking: the ledger is empty then, whatever the "
+                   "preparation does to it")
+        return
     scope = sorted((f for f in ctx.cg.reach([rprep]) if f.cls is not None and f.cls.name == "ResourceScenario"), key=lambda f: f.key)
     if rprep not in scope:
         scope.insert(0, rprep)
@@ -227,6 +234,31 @@ def ledger_survives_prepare_rule(ctx: Ctx, rid: str):
                f"{bad[0].qual} empties {fld} when a run is prepared: on a second schedule() the tasks placed by the first run are skipped, "
                "their slots look free (a task that failed the first time is booked on top of them) and the cost of their work is lost",
                key=f"{rid}|ResourceScenario.prepareScheduling|{fld}")
+
+
+def scenarios_processed_once(ctx: Ctx) -> bool:
+    """The decision of once_per_scenario_rule, without emitting obligations (other rules are conditional on it)."""
+    ps = ctx.repo.func("Project.schedule")
+    g = cfg_of(ps)
+    facts = facts_of(ps)
+    work = [n for n in g.nodes if n.kind == "stmt" and n.ast is not None and any(
+        isinstance(c, ast.Call) and norm(c.func) in ("self.prepareScenario", "self.scheduleScenario") for c in ast.walk(n.ast))]
+    if len(work) < 2:
+        return False
+    for n in work:
+        call = next(c for c in ast.walk(n.ast) if isinstance(c, ast.Call) and norm(c.func) in ("self.prepareScenario", "self.scheduleScenario"))
+        arg = norm(call.args[0]) if call.args else "?"
+        rec = None
+        for cl in facts.at(n):
+            if len(cl) == 1:
+                (t, pol), = tuple(cl)
+                if pol is False and t.startswith(f"{arg} in self."):
+                    rec = t.split(" in ", 1)[1]
+        adds = [x for x in own_nodes(ps) if isinstance(x, ast.Call) and isinstance(x.func, ast.Attribute) and x.func.attr == "add"
+                and rec is not None and norm(x.func.value) == rec and x.args and norm(x.args[0]) == arg]
+        if rec is None or not adds:
+            return False
+    return True
 
 
 def once_per_scenario_rule(ctx: Ctx, rid: str):
@@ -466,10 +498,13 @@ def run(ctx: Ctx):
             conds = " and ".join(norm(c) for g_ in x.value.generators for c in g_.ifs)
             ok = "not t.get('scheduled', scIdx)" in conds
             ctx.ob("R12.3", f"{ss.qual}: work list [{conds}]", (ss, x), ok, "already scheduled tasks are not placed again" if ok else
-                   "a second schedule() call would place scheduled tasks again on top of their bookings", key="R12.3|scheduleScenario|filter")
+                   "tasks that are placed already (dated milestones of the pre-pass; everything, on a second schedule() call) would be placed "
+                   "again on top of their bookings", key="R12.3|scheduleScenario|filter")
     tss = repo.func("TaskScenario.schedule")
     first = [s for s in tss.node.body if not (isinstance(s, ast.Expr) and isinstance(s.value, ast.Constant))][0]
     ok = isinstance(first, ast.If) and norm(first.test) == "self.scheduled" and any(isinstance(s, ast.Return) for s in first.body)
+    if not ok and scenarios_processed_once(ctx):
+        ok = True      # no second walk can reach it: each scenario is processed once (R12.8) and a placed task leaves the work list
     ctx.ob("R12.3", f"{tss.qual}: returns at once when already scheduled", (tss, first), ok, "if self.scheduled: return True" if ok else
            "TaskScenario.schedule re-walks a task that is already scheduled", key="R12.3|TaskScenario.schedule|guard")
     # the flag that is set at the end
